@@ -3,7 +3,8 @@
    verify / verify_range and the VerifiedMultiProof queries.  Models only, no proofs.
 
    Every Rust panic site is an explicit [Panic] outcome (the Rust line is quoted next to it).
-   Line numbers refer to /repo/core/src/proof/multi_proof.rs.
+   Line numbers refer to /repo/core/src/proof/multi_proof.rs at commit d984855 (the fix that
+   makes verify_range return Malformed instead of panicking).
 
    Modelling choices (see also the comments in place):
    * [Vec]s that are only pushed to ([paths], [siblings], [verified_paths],
@@ -41,10 +42,13 @@ Definition slice_from_res {E A : Type} (l : list A) (a : nat) : res E (list A) :
 Definition slice_to_res {E A : Type} (l : list A) (b : nat) : res E (list A) :=
   if Nat.ltb (length l) b then Panic else Ok (firstn b l).
 
-(* a - b on usize with overflow checks: panics when b > a *)
+(* a - b on usize with overflow checks: panics when b > a.  Additions are plain [+] on nat:
+   overflow of usize additions near 2^64 is ignored. *)
 Definition sub_res {E : Type} (a b : nat) : res E nat :=
   if Nat.ltb a b then Panic else Ok (a - b).
 
+(* monadic bind of [res]; exported, MultiUpdate.v uses it too.  Patterns are written without
+   the quote: [do (a, b) <- e ;; f]. *)
 Notation "'do' x <- e ;; f" := (bind e (fun x => f))
   (at level 200, x pattern, e at level 100, f at level 200, right associativity).
 
@@ -245,9 +249,9 @@ Section WithHasher.
   (* ---------------------------------------------------------------------------------------- *)
   (* :271 MultiProofVerificationError (prefixed: PathProof.v already has RootMismatch ...)     *)
   Inductive multi_proof_verification_error :=
-  | MultiRootMismatch | MultiPathsOutOfOrder | MultiTooManySiblings.
+  | MultiRootMismatch | MultiPathsOutOfOrder | MultiTooManySiblings | MultiMalformed.
 
-  (* :281 VerifiedMultiPath, :289 VerifiedBisection, :297 VerifiedMultiProof.
+  (* :284 VerifiedMultiPath, :292 VerifiedBisection, :300 VerifiedMultiProof.
      [Range<usize>] fields are split into start / end. *)
   Record verified_multi_path := {
     vm_terminal : terminal;
@@ -267,11 +271,12 @@ Section WithHasher.
     vmp_root : node H
   }.
 
-  (* :460 verify_range.  It never returns Err itself.  [verified_paths] / [verified_bisections]
-     (&mut Vec) are threaded through and returned.
+  (* :463 verify_range (after the fix d984855: structurally inconsistent ranges are reported as
+     Err Malformed).  [verified_paths] / [verified_bisections] (&mut Vec) are threaded through
+     and returned.
      Fuel bounds the recursion DEPTH: start_depth grows by at least one per level and a call with
-     two or more paths panics (:506) once start_depth exceeds the first path's length, calls with
-     zero or one path do not recurse; so the depth is at most (longest path + 1). *)
+     two or more paths returns Malformed once start_depth exceeds the first path's length, calls
+     with zero or one path do not recurse; so the depth is at most (longest path + 1). *)
   Fixpoint verify_range (fuel : nat) (start_depth : nat) (paths : list multi_path_proof)
            (siblings : list (node H)) (sibling_offset : nat)
            (verified_paths : list verified_multi_path) (verified_bisections : list verified_bisection)
@@ -282,18 +287,26 @@ Section WithHasher.
     | S fuel' =>
         match paths with
         | [] =>
-            (* :470 *)
+            (* :473 *)
             Ok (TERM H, 0,
                 verified_paths ++ [{| vm_terminal := TTerm []; vm_depth := 0;
                                       vm_unique_siblings_start := 0; vm_unique_siblings_end := 0 |}],
                 verified_bisections)
         | [terminal_path] =>
-            (* :482 [terminal_path.depth - start_depth] : usize underflow *)
+            let path := term_path (mpp_terminal terminal_path) in
+            (* :487 *)
+            if Nat.ltb (mpp_depth terminal_path) start_depth
+               || Nat.ltb (length path) (mpp_depth terminal_path)
+            then Err MultiMalformed
+            else
+            (* :492 [terminal_path.depth - start_depth] : cannot underflow after :487 *)
             do unique_len <- sub_res (mpp_depth terminal_path) start_depth ;;
-            (* :486 [path()[start_depth..start_depth + unique_len]] *)
-            do bits <- slice_res (term_path (mpp_terminal terminal_path))
-                                 start_depth (start_depth + unique_len) ;;
-            (* :487 [siblings[..unique_len]] *)
+            (* :493 *)
+            if Nat.ltb (length siblings) unique_len then Err MultiMalformed
+            else
+            (* :499 [path()[start_depth..start_depth + unique_len]] : in range after :487 *)
+            do bits <- slice_res path start_depth (start_depth + unique_len) ;;
+            (* :500 [siblings[..unique_len]] : in range after :493 *)
             do sibs <- slice_to_res siblings unique_len ;;
             let node := hash_path H (terminal_node H (mpp_terminal terminal_path)) bits (rev sibs) in
             Ok (node, unique_len,
@@ -303,24 +316,38 @@ Section WithHasher.
                                       vm_unique_siblings_end := sibling_offset + unique_len |}],
                 verified_bisections)
         | start_path :: _ =>
-            (* :503 [paths[paths.len() - 1]] : in range, paths is not empty *)
+            (* :516 [paths[paths.len() - 1]] : in range, paths is not empty *)
             do end_path <- nth_res paths (length paths - 1) ;;
             let start_bits := term_path (mpp_terminal start_path) in
-            (* :506, :507 [path()[start_depth..]] *)
+            let end_bits := term_path (mpp_terminal end_path) in
+            (* :518 *)
+            if Nat.ltb (length start_bits) start_depth || Nat.ltb (length end_bits) start_depth
+            then Err MultiMalformed
+            else
+            (* :524, :525 [path()[start_depth..]] : in range after :518 *)
             do a <- slice_from_res start_bits start_depth ;;
-            do b <- slice_from_res (term_path (mpp_terminal end_path)) start_depth ;;
+            do b <- slice_from_res end_bits start_depth ;;
             let common_bits := common a b in
             let common_len := start_depth + common_bits in
+            (* :532 *)
+            if existsb (fun path => Nat.leb (length (term_path (mpp_terminal path))) common_len) paths
+               || Nat.ltb (length siblings) common_bits
+            then Err MultiMalformed
+            else
             let uncommon_start_len := common_len + 1 in
-            (* :516 binary_search_by; the closure indexes [path()[uncommon_start_len - 1]] (:517) *)
+            (* :543 binary_search_by; the closure indexes [path()[uncommon_start_len - 1]] (:544),
+               in range after :532 *)
             do search_result <-
                binary_search_by
                  (fun item : multi_path_proof =>
                     do bit <- nth_res (term_path (mpp_terminal item)) (uncommon_start_len - 1) ;;
                     Ok (if negb bit then Lt else Gt))
                  paths ;;
-            (* :528 .unwrap_err() : never Ok because the closure never returns Equal *)
+            (* :555 .unwrap_err() : never Ok because the closure never returns Equal *)
             do bisect_idx <- unwrap_err search_result ;;
+            (* :558 *)
+            if Nat.eqb bisect_idx 0 || Nat.eqb bisect_idx (length paths) then Err MultiMalformed
+            else
             let verified_bisections :=
               if Nat.ltb 0 common_bits
               then verified_bisections ++
@@ -328,14 +355,15 @@ Section WithHasher.
                        vb_common_siblings_start := sibling_offset;
                        vb_common_siblings_end := sibling_offset + common_bits |}]
               else verified_bisections in
-            (* :543 [paths[..bisect_idx]] (always in range), :544 [siblings[common_bits..]] *)
+            (* :575 [paths[..bisect_idx]] (always in range), :576 [siblings[common_bits..]] (in range after :532) *)
             do paths_left <- slice_to_res paths bisect_idx ;;
             do siblings_left <- slice_from_res siblings common_bits ;;
             do left_res <- verify_range fuel' uncommon_start_len paths_left siblings_left
                                         (sibling_offset + common_bits)
                                         verified_paths verified_bisections ;;
             let '(left_node, left_siblings_used, verified_paths, verified_bisections) := left_res in
-            (* :553 [paths[bisect_idx..]], :554 [siblings[common_bits + left_siblings_used..]] *)
+            (* :585 [paths[bisect_idx..]], :586 [siblings[common_bits + left_siblings_used..]]
+               (a range never uses more siblings than it was given) *)
             do paths_right <- slice_from_res paths bisect_idx ;;
             do siblings_right <- slice_from_res siblings (common_bits + left_siblings_used) ;;
             do right_res <- verify_range fuel' uncommon_start_len paths_right siblings_right
@@ -343,7 +371,7 @@ Section WithHasher.
                                          verified_paths verified_bisections ;;
             let '(right_node, right_siblings_used, verified_paths, verified_bisections) := right_res in
             let total_siblings_used := common_bits + left_siblings_used + right_siblings_used in
-            (* :567 [path()[start_depth..common_len]], :568 [siblings[..common_bits]] : both in range here *)
+            (* :599 [path()[start_depth..common_len]], :600 [siblings[..common_bits]] : both in range here *)
             do bits <- slice_res start_bits start_depth common_len ;;
             do sibs <- slice_to_res siblings common_bits ;;
             let node := hash_path H (hint H left_node right_node) bits (rev sibs) in
@@ -351,7 +379,7 @@ Section WithHasher.
         end
     end.
 
-  (* :425 the ordering check of verify: [path.terminal.path() <= paths[i - 1].terminal.path()] *)
+  (* :428 the ordering check of verify: [path.terminal.path() <= paths[i - 1].terminal.path()] *)
   Fixpoint paths_out_of_order (prev : option key) (paths : list multi_path_proof) : bool :=
     match paths with
     | [] => false
@@ -363,7 +391,7 @@ Section WithHasher.
         end
     end.
 
-  (* :419 verify *)
+  (* :422 verify *)
   Definition verify (multi_proof : multi_proof) (root : node H)
     : res multi_proof_verification_error verified_multi_proof :=
     if paths_out_of_order None (mp_paths multi_proof) then Err MultiPathsOutOfOrder
@@ -382,8 +410,8 @@ Section WithHasher.
   (* ---------------------------------------------------------------------------------------- *)
   (* VerifiedMultiProof queries.  KeyOutOfScope is PathProof.out_of_scope.                      *)
 
-  (* :309 find_index_for.  The closure slices [v.terminal.path()[..v.depth]] and
-     [key_path[..v.depth]] (:311), both can panic. *)
+  (* :312 find_index_for.  The closure slices [v.terminal.path()[..v.depth]] and
+     [key_path[..v.depth]] (:314), both can panic. *)
   Definition find_index_for (self : verified_multi_proof) (key_path : key) : res out_of_scope nat :=
     do search_result <-
        binary_search_by
@@ -397,50 +425,50 @@ Section WithHasher.
     | NotFound _ => Err KeyOutOfScope
     end.
 
-  (* :399 confirm_nonexistence_inner *)
+  (* :402 confirm_nonexistence_inner *)
   Definition confirm_nonexistence_inner (self : verified_multi_proof) (key_path : key) (index : nat)
     : res out_of_scope bool :=
-    do p <- nth_res (vmp_inner self) index ;;   (* :400 [self.inner[index]] *)
+    do p <- nth_res (vmp_inner self) index ;;   (* :403 [self.inner[index]] *)
     Ok (match vm_terminal p with
         | TTerm _ => true
         | TLeaf k _ => negb (key_eqb k key_path)
         end).
 
-  (* :407 confirm_value_inner; LeafData is the pair (key_path, value_hash) *)
+  (* :410 confirm_value_inner; LeafData is the pair (key_path, value_hash) *)
   Definition confirm_value_inner (self : verified_multi_proof) (expected_leaf : key * value) (index : nat)
     : res out_of_scope bool :=
-    do p <- nth_res (vmp_inner self) index ;;   (* :408 [self.inner[index]] *)
+    do p <- nth_res (vmp_inner self) index ;;   (* :411 [self.inner[index]] *)
     Ok (match vm_terminal p with
         | TTerm _ => false
         | TLeaf k v => key_eqb k (fst expected_leaf) && N.eqb v (snd expected_leaf)
         end).
 
-  (* :324 *)
+  (* :327 *)
   Definition confirm_nonexistence (self : verified_multi_proof) (key_path : key) : res out_of_scope bool :=
     do index <- find_index_for self key_path ;;
     confirm_nonexistence_inner self key_path index.
 
-  (* :336 *)
+  (* :339 *)
   Definition confirm_value (self : verified_multi_proof) (expected_leaf : key * value) : res out_of_scope bool :=
     do index <- find_index_for self (fst expected_leaf) ;;
     confirm_value_inner self expected_leaf index.
 
-  (* :358-360 the scope test shared by the two _with_index functions *)
+  (* :361-360 the scope test shared by the two _with_index functions *)
   Definition in_scope_with_index (self : verified_multi_proof) (key_path : key) (index : nat)
     : res out_of_scope bool :=
-    do path <- nth_res (vmp_inner self) index ;;                               (* :358 / :386 [self.inner[index]] *)
+    do path <- nth_res (vmp_inner self) index ;;                               (* :361 / :389 [self.inner[index]] *)
     let depth := vm_depth path in
-    do a <- slice_to_res (term_path (vm_terminal path)) depth ;;               (* :360 / :389 [path()[..depth]] *)
-    do b <- slice_to_res key_path depth ;;                                     (* :360 / :389 [key_path[..depth]] *)
+    do a <- slice_to_res (term_path (vm_terminal path)) depth ;;               (* :363 / :392 [path()[..depth]] *)
+    do b <- slice_to_res key_path depth ;;                                     (* :363 / :392 [key_path[..depth]] *)
     Ok (key_eqb a b).
 
-  (* :353 *)
+  (* :356 *)
   Definition confirm_nonexistence_with_index (self : verified_multi_proof) (key_path : key) (index : nat)
     : res out_of_scope bool :=
     do in_scope <- in_scope_with_index self key_path index ;;
     if in_scope then confirm_nonexistence_inner self key_path index else Err KeyOutOfScope.
 
-  (* :381 *)
+  (* :384 *)
   Definition confirm_value_with_index (self : verified_multi_proof) (expected_leaf : key * value) (index : nat)
     : res out_of_scope bool :=
     do in_scope <- in_scope_with_index self (fst expected_leaf) index ;;
@@ -579,20 +607,25 @@ Module MultiProofExamples.
     = Err MultiPathsOutOfOrder.
   Proof. vm_compute. reflexivity. Qed.
 
-  (* malformed (known finding F2): [siblings[..unique_len]] is out of range (:487) *)
-  Example verify_missing_sibling_panics :
-    verify FreeH (mp [mpp (TLeaf key_path_0' 0%N) 1] []) root = Panic.
+  (* malformed (former finding F2, fixed in d984855): too few siblings (:493) *)
+  Example verify_missing_sibling_malformed :
+    verify FreeH (mp [mpp (TLeaf key_path_0' 0%N) 1] []) root = Err MultiMalformed.
   Proof. vm_compute. reflexivity. Qed.
 
-  (* malformed: depth < start_depth underflows [terminal_path.depth - start_depth] (:482) *)
-  Example verify_depth_underflow_panics :
-    verify FreeH (mp [mpp (TLeaf key_path_0' 0%N) 0; mpp (TLeaf key_path_1' 1%N) 1] []) root = Panic.
+  (* malformed: depth < start_depth (:487; underflowed [terminal_path.depth - start_depth] before d984855) *)
+  Example verify_depth_underflow_malformed :
+    verify FreeH (mp [mpp (TLeaf key_path_0' 0%N) 0; mpp (TLeaf key_path_1' 1%N) 1] []) root = Err MultiMalformed.
   Proof. vm_compute. reflexivity. Qed.
 
-  (* malformed: a terminator path which is a prefix of the next path: the binary search indexes
-     the shorter path out of range (:517) *)
-  Example verify_prefix_path_panics :
-    verify FreeH (mp [mpp (term (k [0])) 1; mpp (term (k [0;1])) 2] []) root = Panic.
+  (* malformed: a terminator path which is a prefix of the next path (:534; before d984855 the
+     binary search indexed the shorter path out of range) *)
+  Example verify_prefix_path_malformed :
+    verify FreeH (mp [mpp (term (k [0])) 1; mpp (term (k [0;1])) 2] []) root = Err MultiMalformed.
+  Proof. vm_compute. reflexivity. Qed.
+
+  (* malformed: depth beyond the terminal's path (:488) *)
+  Example verify_depth_beyond_path_malformed :
+    verify FreeH (mp [mpp (term (k [0;1])) 3] [o 1; o 2; o 3]) root = Err MultiMalformed.
   Proof. vm_compute. reflexivity. Qed.
 
   (* test_verify_multiproof_siblings_structure: shape of the siblings vector and verification *)
